@@ -281,3 +281,23 @@ class SpyIterator:
     def __repr__(self):
         _rec(self, '__repr__')
         return '<SpyIterator>'
+
+
+class SpySizedIterator(SpyIterator):
+    """One-shot iterator that also reports how many items remain (__len__) but is no Collection (no __contains__)."""
+
+    def __init__(self, items):
+        SpyIterator.__init__(self, items)
+        self._n = len(list(items)) if not isinstance(items, list) else len(items)
+
+    def __len__(self):
+        _rec(self, '__len__')
+        return self._n - self.consumed
+
+
+class SpyContainerIterator(SpyIterator):
+    """One-shot iterator that supports ``in`` (__contains__) but has no __len__ - again no Collection."""
+
+    def __contains__(self, x):
+        _rec(self, '__contains__')
+        return False
